@@ -153,7 +153,11 @@ def run_coerce(P, rep, rule="R-COERCE"):
         parses = [t for t in calls if t["f"]["id"] == "core::str::parse" or t["f"]["name"].endswith("str::parse") or t["f"]["id"].endswith("::parse")]
         branches = [b for b in reg if fn.blocks[b]["t"]["k"] == "switch" and b not in sw]
         others = [t["f"]["name"] for t in calls if t not in parses and t["f"]["id"].rsplit("::", 1)[1] not in ("ok", "deref", "as_str", "as_ref", "borrow")]
-        okty = any(ty in str([P.tstr(fn.crate, a) for a in t["f"].get("args", []) if isinstance(a, int)]) for t in parses)
+        def _okty(t_):
+            targs = [P.tstr(fn.crate, a) for a in t_["f"].get("args", []) if isinstance(a, int)]
+            # the expected number type, or a type parameter of a private generic helper expanded in place (`parse_str::<T>`)
+            return any(x == ty or (len(x) <= 2 and x[:1].isupper()) for x in targs)
+        okty = any(_okty(t) for t in parses)
         if len(parses) != 1 or not okty:
             rep.viol(rule, site, P.where(fn), "expected exactly one str::parse::<%s> in the string arm, found %d" % (ty, len(parses)))
         elif branches:
